@@ -274,7 +274,7 @@ class Sim:
         cur = None if exiting else self.cur()
         self.steps += 1
         if self.steps > self.max_steps:
-            self.failure = ('step-limit',)
+            self.failure = ('step-limit', self._stacks())
             self._finish()
             if exiting:
                 return
@@ -312,7 +312,7 @@ class Sim:
                 nxt = None
                 break
             if self.max_virtual is not None and nxt_t - EPOCH > self.max_virtual:
-                self.failure = ('virtual-time-limit',)
+                self.failure = ('virtual-time-limit', self._stacks())
                 self._finish()
                 nxt = None
                 break
@@ -338,6 +338,17 @@ class Sim:
         cur.baton.acquire()
         if self.finished:
             raise SimAbort()
+
+    def _stacks(self, depth=7):
+        """where every live task is (for diagnostics of runs that do not terminate)"""
+        import traceback
+        frames = sys._current_frames()
+        res = []
+        for t in self.tasks:
+            if t.state != 'done' and t.ident in frames:
+                st = traceback.extract_stack(frames[t.ident])[-depth:]
+                res.append((t.name, t.state, [f'{f.filename.rsplit("/", 2)[-1]}:{f.lineno}:{f.name}' for f in st]))
+        return res
 
     def _finish(self):
         if not self.finished:
